@@ -125,7 +125,15 @@ class Attempts(LoopSpec):
         # density proportional to 1/sqrt(z) (change of variables, dz = x dx)
         zv = S.z(fr.locals[self.roles["z"]])
         x = S.z(st.x_lwr) + S.z(st.x_width) * u_z
-        vc.ensures(f"C01/{edge}.stretch_variable", Sym(z3.And(zv == x * x / 2, zv * st.alpha.e >= 1, zv <= st.alpha.e)))
+        lo_, hi_ = S.z(st.x_lwr), S.z(st.x_lwr) + S.z(st.x_width)          # sqrt(2/alpha), sqrt(2 alpha)
+        al = st.alpha.e
+        vc.ensures(f"C01/{edge}.stretch_variable.form", Sym(zv == x * x / 2))
+        # small steps for the non-linear solver: end points, ordering, range of x, range of z
+        vc.lemma(f"C01/{edge}.stretch_variable.end_points", Sym(z3.And(lo_ >= 0, hi_ >= 0, lo_ * lo_ * al == 2, hi_ * hi_ == 2 * al)))
+        vc.lemma(f"C01/{edge}.stretch_variable.end_points_ordered", Sym(lo_ <= hi_))
+        vc.lemma(f"C01/{edge}.stretch_variable.x_range", Sym(z3.And(lo_ <= x, x <= hi_)))
+        vc.lemma(f"C01/{edge}.stretch_variable.x_squared_range", Sym(z3.And(lo_ * lo_ <= x * x, x * x <= hi_ * hi_)))
+        vc.ensures(f"C01/{edge}.stretch_variable.range", Sym(z3.And(x * x / 2 * al >= 1, x * x / 2 <= al)))
         # Goodman-Weare stretch move for walker i:  Y = fold( X_j + z (X_i - X_j) )
         Xi = Tensor((st.d,), lambda c_: Sym(st.WP(zi, S.z(c_))))
         Xj = Tensor((st.d,), lambda c_: Sym(st.WP(j.e, S.z(c_))))
@@ -136,9 +144,9 @@ class Attempts(LoopSpec):
         q = S.z(fr.locals[self.roles["q"]])
         vc.ensures(f"C01/{edge}.new_value", Sym(p_new == val))
         # acceptance probability min(1, z^(d-1) pi(Y)/pi(X_i)) with the current value F(X_i)
-        logz = S.uf("log", zv)
-        expo = S.uf("exp", S.to_real(S.z(st.d) - 1) * logz + val - F(st.rows(zi)))
-        vc.ensures(f"C01/{edge}.acceptance_probability", Sym(q == expo))
+        logz = vc.log(Sym(zv))
+        expo = vc.exp((st.d - 1) * logz + Sym(val) - Sym(F(st.rows(zi))))
+        vc.ensures(f"C01/{edge}.acceptance_probability", Sym(q) == expo)
         if edge == "accept":
             vc.ensures("C01/accept.metropolis_rule", Sym(u_acc <= q))
             self.accepted = (arr, snap, val)
